@@ -388,6 +388,7 @@ def run(args):
                      'defaults; class = (position, spelling) / arrangement; non-trivial = element found and judged')
     n = int((300 if args.tier == 'quick' else 20000) * args.scale)
     cases = [(args.seed, i) for i in range(n)]
+    cases = core.replay_cases(args, cases)
     B = 8
     batches = [cases[k:k + B] for k in range(0, len(cases), B)]
     harness = []
